@@ -29,7 +29,7 @@ use grin_core::ser::{self, DeserializationMode, ProtocolVersion, Writeable};
 use grin_keychain::BlindingFactor;
 use grin_p2p::handshake::Handshake;
 use grin_p2p::msg::{
-	self, write_message, BanReason, Consumed, GetPeerAddrs, Headers, Locator, Message, Msg,
+	write_message, BanReason, Consumed, GetPeerAddrs, Headers, Locator, Message, Msg,
 	OutputBitmapSegmentResponse, OutputSegmentResponse, PeerAddrs, Ping, Pong, SegmentRequest,
 	SegmentResponse, TxHashSetArchive, TxHashSetRequest, Type,
 };
@@ -57,7 +57,6 @@ const VERSIONS: [u32; 4] = [1, 2, 3, 1000];
 /// Network magic of every chain type other than mainnet / testnet (own constant, from the protocol definition).
 const MAGIC: [u8; 2] = [73, 43];
 const HDR_LEN: usize = 11;
-const BATCH: usize = 32;
 const ATT_CHUNK: usize = 48_000;
 
 const TYPE_NAMES: [&str; 29] = [
@@ -169,10 +168,6 @@ fn is_timeout(e: &Error) -> bool {
 	}
 }
 
-fn vi_of(version: u32) -> usize {
-	VERSIONS.iter().position(|v| *v == version).unwrap_or(3)
-}
-
 fn pv(vi: usize) -> ProtocolVersion {
 	ProtocolVersion(VERSIONS[vi])
 }
@@ -226,6 +221,8 @@ fn mine_header(p: &mut Prng, height: u64, eb: u8) -> BlockHeader {
 	h.pow.secondary_scaling = p.next_u32();
 	h.pow.nonce = p.next_u64();
 	pow::pow_size(&mut h, Difficulty::zero(), global::proofsize(), eb).expect("pow_size");
+	// the solver labels its proofs with the minimum edge bits; the cycle was found in the 2^eb graph
+	h.pow.proof.edge_bits = eb;
 	h
 }
 
@@ -297,6 +294,13 @@ fn build_fx(seed: u64, n_pool: usize) -> Fx {
 	let pool = mine_pool(seed, ebs.clone());
 	let mut hdr_bytes = vec![];
 	for h in &pool {
+		// fixture sanity: every pool header must pass the read-time validation on its own
+		{
+			let b = ser::ser_vec(h, ProtocolVersion(1000)).unwrap();
+			let r: Result<grin_core::core::UntrustedBlockHeader, _> =
+				ser::deserialize(&mut &b[..], ProtocolVersion(1000), DeserializationMode::default());
+			assert!(r.is_ok(), "fixture header (edge bits {}) does not pass UntrustedBlockHeader::read: {:?}", h.pow.edge_bits(), r.err());
+		}
 		let b = ser::ser_vec(h, ProtocolVersion(1000)).expect("ser header");
 		for v in VERSIONS {
 			assert_eq!(b, ser::ser_vec(h, ProtocolVersion(v)).unwrap());
@@ -431,20 +435,31 @@ fn build_fx(seed: u64, n_pool: usize) -> Fx {
 	let c0 = w.coin(60_000_000_000, &w.key(1), true);
 	let c1 = w.coin(50_000_000_000, &w.key(2), false);
 	let c2 = w.coin(7_000_000_000, &w.key(3), false);
+	// the builder yields commit-only inputs (v3 wire form); v1/v2 peers carry features + commitment
+	let with_features = |tx: Transaction, coins: &[vcommon::world::Coin]| -> Transaction {
+		let mut ins: Vec<grin_core::core::Input> = coins.iter().map(|c| c.input()).collect();
+		ins.sort_unstable();
+		Transaction {
+			offset: tx.offset.clone(),
+			body: tx.body.clone().replace_inputs(grin_core::core::transaction::Inputs::from(ins.as_slice())),
+		}
+	};
 	let (tx1, _) = w.tx(
 		&mut p,
-		&[c0],
+		&[c0.clone()],
 		&[(59_000_000_000, w.key(4))],
 		KernelFeatures::Plain {
 			fee: fee_fields(1_000_000_000),
 		},
 	);
+	let tx1 = with_features(tx1, &[c0]);
 	let (tx2, _) = w.tx(
 		&mut p,
-		&[c1, c2],
+		&[c1.clone(), c2.clone()],
 		&[(30_000_000_000, w.key(5)), (26_000_000_000, w.key(6))],
 		height_locked(1_000_000_000, 7),
 	);
+	let tx2 = with_features(tx2, &[c1, c2]);
 	entries.push(mk_entry("Transaction", Type::Transaction, &tx1, &mut mism));
 	entries.push(mk_entry("Transaction2", Type::Transaction, &tx2, &mut mism));
 	entries.push(mk_entry("StemTransaction", Type::StemTransaction, &tx2, &mut mism));
@@ -456,6 +471,7 @@ fn build_fx(seed: u64, n_pool: usize) -> Fx {
 		let mut b = Block::from_reward(&prev, txs, out, kern, Difficulty::from_num(5)).expect("from_reward");
 		b.header.timestamp = ts(1_600_000_500);
 		pow::pow_size(&mut b.header, Difficulty::zero(), global::proofsize(), eb).expect("pow block");
+		b.header.pow.proof.edge_bits = eb;
 		b
 	};
 	let b1 = mk_block(&[], 10, 10);
@@ -654,14 +670,6 @@ impl Item {
 				f.extend_from_slice(&archive_attachment(*l, *s));
 				f
 			}
-		}
-	}
-	/// messages the receiver is expected to see for this item
-	fn n_reads(&self) -> u64 {
-		match self {
-			Item::Plain(_) | Item::Unknown(_, _) => 1,
-			Item::Headers(h) => ((h.len() + BATCH - 1) / BATCH).max(1) as u64,
-			Item::Archive(l, _) => 1 + ((*l + ATT_CHUNK - 1) / ATT_CHUNK).max(1) as u64,
 		}
 	}
 }
@@ -1380,4 +1388,1637 @@ fn run_jobs(
 			});
 		}
 	});
+}
+
+// ---------------------------------------------------------------- workload generation
+
+fn rand_delays(p: &mut Prng, n: usize) -> Vec<u16> {
+	(0..n)
+		.map(|_| match p.below(100) {
+			0..=49 => 0,
+			50..=79 => p.range(1, 5) as u16,
+			80..=94 => p.range(5, 30) as u16,
+			_ => p.range(30, 100) as u16,
+		})
+		.collect()
+}
+
+fn rand_cuts(p: &mut Prng, len: usize, k: usize) -> Vec<usize> {
+	let mut c: Vec<usize> = vec![];
+	if len < 2 {
+		return c;
+	}
+	for _ in 0..k {
+		c.push(1 + p.usize_below(len - 1));
+	}
+	c.sort_unstable();
+	c.dedup();
+	c
+}
+
+struct Gen<'a> {
+	fx: &'a Arc<Fx>,
+	jobs: Vec<Job>,
+	groups: Vec<Group>,
+}
+
+impl<'a> Gen<'a> {
+	fn plain(&self, n: &str) -> Item {
+		Item::Plain(self.fx.e(n))
+	}
+	fn push(&mut self, st: &Arc<Stream>, class: &'static str, cuts: Vec<usize>, delays_ms: Vec<u16>, gap_us: u64, listen: bool, group: Option<usize>) {
+		self.jobs.push(Job {
+			st: st.clone(),
+			cuts,
+			delays_ms,
+			gap_us,
+			listen,
+			class,
+			group,
+		});
+	}
+	/// every single split point of the stream (2 fragments at each offset) + the unsplit stream
+	fn exhaustive1(&mut self, st: &Arc<Stream>) {
+		let g = self.groups.len();
+		let n = st.bytes.len();
+		self.groups.push(Group {
+			name: format!("{}|v{}", st.name, VERSIONS[st.vi]),
+			total: n,
+			left: AtomicUsize::new(n),
+		});
+		self.push(st, "unsplit", vec![], vec![], 0, false, Some(g));
+		for c in 1..n {
+			self.push(st, "exhaustive1", vec![c], vec![], 250, false, Some(g));
+		}
+	}
+	fn dribble(&mut self, st: &Arc<Stream>, listen: bool) {
+		let cuts: Vec<usize> = (1..st.bytes.len()).collect();
+		self.push(st, "dribble1", cuts, vec![], 0, listen, None);
+	}
+	fn random_splits(&mut self, p: &mut Prng, st: &Arc<Stream>, class: &'static str, variants: usize, listen: bool) {
+		for _ in 0..variants {
+			let k = 1 + p.usize_below(12);
+			let cuts = rand_cuts(p, st.bytes.len(), k);
+			let delays = rand_delays(p, cuts.len());
+			self.push(st, class, cuts, delays, 100, listen, None);
+		}
+	}
+	/// cuts at every item boundary and one byte around it, plus the given extra positions
+	fn boundary_cuts(&mut self, st: &Arc<Stream>, class: &'static str, extra: &[usize], listen: bool) {
+		let n = st.bytes.len();
+		let mut pts: Vec<usize> = vec![];
+		let mut start = 0usize;
+		for e in &st.item_ends {
+			for c in [start + HDR_LEN - 1, start + HDR_LEN, start + HDR_LEN + 1, start + HDR_LEN + 2, *e - 1, *e, *e + 1] {
+				pts.push(c);
+			}
+			start = *e;
+		}
+		pts.extend_from_slice(extra);
+		pts.sort_unstable();
+		pts.dedup();
+		for c in pts {
+			if c >= 1 && c < n {
+				self.push(st, class, vec![c], vec![], 300, listen, None);
+			}
+		}
+	}
+	fn chunked(&mut self, st: &Arc<Stream>, class: &'static str, chunk: usize, gap_us: u64, listen: bool) {
+		let cuts: Vec<usize> = (1..).map(|i| i * chunk).take_while(|c| *c < st.bytes.len()).collect();
+		self.push(st, class, cuts, vec![], gap_us, listen, None);
+	}
+}
+
+/// scale: 0 = sanitizer run, 1 = quick, 2 = thorough
+fn gen_jobs(fx: &Arc<Fx>, seed: u64, scale: u32) -> (Vec<Job>, Vec<Group>) {
+	let mut p = Prng::new(seed ^ 0x10B5);
+	let mut g = Gen {
+		fx,
+		jobs: vec![],
+		groups: vec![],
+	};
+	let all_v: Vec<usize> = vec![0, 1, 2, 3];
+	let pick_v = |quick: &[usize]| -> Vec<usize> {
+		match scale {
+			0 => vec![3],
+			1 => quick.to_vec(),
+			_ => all_v.clone(),
+		}
+	};
+
+	// ---- short sequences: every single split point
+	let ctl_a = vec![
+		g.plain("Ping"),
+		g.plain("GetHeaders1"),
+		g.plain("Pong"),
+		g.plain("GetPeerAddrs"),
+		g.plain("PeerAddrs3"),
+		g.plain("BanReason"),
+		g.plain("GetBlock"),
+		Item::Unknown(200, 5),
+		g.plain("TxHashSetRequest"),
+		g.plain("Ping"),
+	];
+	let ctl_b = vec![
+		g.plain("TransactionKernel"),
+		g.plain("GetTransaction"),
+		g.plain("GetCompactBlock"),
+		g.plain("GetOutputBitmapSegment"),
+		g.plain("GetOutputSegment"),
+		g.plain("GetRangeProofSegment"),
+		g.plain("GetKernelSegment"),
+		g.plain("PeerAddrs0"),
+		g.plain("GetHeaders0"),
+		g.plain("BanReason7"),
+		g.plain("PingMax"),
+		g.plain("PeerAddrs1"),
+	];
+	let hdr = vec![g.plain("Header"), Item::Headers(vec![1, 2]), g.plain("HeaderEb19"), g.plain("Ping")];
+	let tx = vec![g.plain("Transaction"), g.plain("KernelSegment"), g.plain("Pong")];
+	let blk = vec![g.plain("BlockTx"), g.plain("Ping")];
+	let cblk = vec![g.plain("CompactBlockTx"), g.plain("OutputSegment"), g.plain("Pong")];
+	let pibd = vec![g.plain("RangeProofSegment"), g.plain("OutputBitmapSegment"), g.plain("Ping")];
+	let stem = vec![g.plain("StemTransaction"), g.plain("Block"), g.plain("CompactBlock"), g.plain("Transaction2")];
+	let att100 = vec![Item::Archive(100, 1), g.plain("Ping")];
+	let att0 = vec![g.plain("Pong"), Item::Archive(0, 2), g.plain("Ping")];
+	let att1 = vec![Item::Archive(1, 3), g.plain("Pong")];
+	let unk = vec![g.plain("Ping"), Item::Unknown(29, 0), Item::Unknown(255, 100), Item::Unknown(77, 1), g.plain("Pong")];
+	let big = vec![g.plain("GetHeaders20"), g.plain("PeerAddrs256")];
+	let short_sets: Vec<(&str, Vec<Item>, Vec<usize>)> = vec![
+		("ctl-a", ctl_a.clone(), pick_v(&[0, 1, 2, 3])),
+		("ctl-b", ctl_b, pick_v(&[0, 1, 2, 3])),
+		("hdr", hdr.clone(), pick_v(&[0, 3])),
+		("unk", unk.clone(), pick_v(&[0, 1, 2, 3])),
+		("att100", att100, pick_v(&[0, 3])),
+		("att0", att0, pick_v(&[1, 3])),
+		("att1", att1, pick_v(&[2, 3])),
+		("tx", tx.clone(), pick_v(&[0, 1, 2, 3])),
+		("blk", blk, pick_v(&[1, 2])),
+		("cblk", cblk, pick_v(&[0, 3])),
+		("pibd", pibd, pick_v(&[0, 2])),
+		("stem", stem, pick_v(&[1])),
+		("big", big, pick_v(&[3])),
+	];
+	let mut short_streams: Vec<Arc<Stream>> = vec![];
+	for (name, items, vs) in &short_sets {
+		for vi in vs {
+			let st = mk_stream(fx, name, *vi, items.clone());
+			if scale == 0 {
+				// sanitizer run: every 7th split point only
+				g.push(&st, "unsplit", vec![], vec![], 0, false, None);
+				let mut c = 1 + p.usize_below(7);
+				while c < st.bytes.len() {
+					g.push(&st, "sampled1", vec![c], vec![], 250, false, None);
+					c += 7;
+				}
+			} else {
+				g.exhaustive1(&st);
+			}
+			short_streams.push(st);
+		}
+	}
+
+	// ---- the empty header list (what an up-to-date peer answers to GetHeaders)
+	for vi in pick_v(&[0, 3]) {
+		let st = mk_stream(fx, "hdr0", vi, vec![g.plain("Ping"), Item::Headers(vec![]), g.plain("Pong")]);
+		g.push(&st, "unsplit", vec![], vec![], 0, false, None);
+		g.boundary_cuts(&st, "boundary", &[], false);
+		g.push(&st, "unsplit", vec![], vec![], 0, true, None);
+	}
+
+	// ---- all pairs of split points of a tiny stream
+	{
+		let st = mk_stream(fx, "pairs", 3, vec![g.plain("Ping"), g.plain("GetHeaders1"), g.plain("Pong")]);
+		let n = st.bytes.len();
+		let step = if scale == 0 { 9 } else { 1 };
+		let mut a = 1;
+		while a < n {
+			let mut b = a + 1;
+			while b < n {
+				g.push(&st, "exhaustive2", vec![a, b], vec![], 150, false, None);
+				b += step;
+			}
+			a += step;
+		}
+		if scale >= 2 {
+			let st = mk_stream(fx, "pairs-hdr", 3, vec![Item::Headers(vec![0]), g.plain("Ping")]);
+			let n = st.bytes.len();
+			for a in 1..n {
+				for b in (a + 1)..n {
+					g.push(&st, "exhaustive2", vec![a, b], vec![], 120, false, None);
+				}
+			}
+		}
+	}
+
+	// ---- 1-byte dribble for short streams
+	for st in &short_streams {
+		if st.bytes.len() <= 3000 || scale >= 2 {
+			g.dribble(st, false);
+		}
+	}
+
+	// ---- header lists
+	let pool_n = fx.hdr_bytes.len();
+	let min_idx: Vec<usize> = (0..pool_n).filter(|i| fx.hdr_eb[*i] == 10).collect();
+	let mut sizes: Vec<usize> = vec![1, 31, 32, 33, 64, 65];
+	if pool_n >= 512 {
+		sizes.push(512);
+	}
+	for (si, n) in sizes.iter().enumerate() {
+		let n = *n;
+		let mut patterns: Vec<(&str, Vec<usize>)> = vec![];
+		// mixed edge bits in pool order from a random offset
+		let off = p.usize_below(pool_n - n + 1);
+		patterns.push(("mixed", (off..off + n).collect()));
+		if min_idx.len() >= n {
+			patterns.push(("min", min_idx[..n].to_vec()));
+		}
+		let mut asc: Vec<usize> = (0..n).collect();
+		asc.sort_by_key(|i| fx.hdr_eb[*i]);
+		patterns.push(("asc", asc.clone()));
+		asc.reverse();
+		patterns.push(("desc", asc));
+		let mut sh: Vec<usize> = (0..pool_n).collect();
+		p.shuffle(&mut sh);
+		sh.truncate(n);
+		patterns.push(("shuffled", sh));
+		for (pi, (pname, idx)) in patterns.into_iter().enumerate() {
+			let vi = if scale == 0 { 3 } else { (si + pi) % 4 };
+			let st = mk_stream(
+				fx,
+				&format!("hdrs{}-{}", n, pname),
+				vi,
+				vec![g.plain("Ping"), Item::Headers(idx.clone()), g.plain("Pong")],
+			);
+			g.push(&st, "unsplit", vec![], vec![], 0, false, None);
+			g.random_splits(&mut p, &st, "random", if scale >= 2 { 6 } else { 2 }, false);
+			// cuts at every header boundary (one job per boundary offset family)
+			let base = 27 + HDR_LEN + 2;
+			for delta in [0isize, 1, -1] {
+				let mut pos = base;
+				let mut cuts = vec![];
+				for i in &idx {
+					pos += fx.hdr_bytes[*i].len();
+					let c = pos as isize + delta;
+					if c > 0 && (c as usize) < st.bytes.len() {
+						cuts.push(c as usize);
+					}
+				}
+				g.push(&st, "hdr_boundaries", cuts, vec![], if n > 100 { 0 } else { 100 }, false, None);
+			}
+			g.chunked(&st, "chunked", 1000, 0, false);
+			g.chunked(&st, "chunked", 310, 0, false);
+			if n <= 33 && (scale >= 2 || pi == 0) {
+				g.dribble(&st, false);
+			}
+			if pi < 2 && scale >= 1 {
+				g.push(&st, "unsplit", vec![], vec![], 0, true, None);
+				g.random_splits(&mut p, &st, "random", 1, true);
+			}
+			// every single split point of a 33-header list: whole stream in thorough, the
+			// regions around the batch boundary and both ends in quick
+			if n == 33 && pi == 0 && scale >= 1 {
+				if scale >= 2 {
+					g.exhaustive1(&st);
+				} else {
+					let len = st.bytes.len();
+					let h32: usize = base + idx[..32].iter().map(|i| fx.hdr_bytes[*i].len()).sum::<usize>();
+					let mut pts: Vec<usize> = (1..700).collect();
+					pts.extend(h32 - 350..(h32 + 350).min(len));
+					pts.extend(len - 100..len);
+					pts.sort_unstable();
+					pts.dedup();
+					for c in pts {
+						if c < len {
+							g.push(&st, "region1", vec![c], vec![], 250, false, None);
+						}
+					}
+				}
+			}
+		}
+	}
+
+	// ---- attachments
+	let att_sizes: Vec<usize> = if scale == 0 {
+		vec![0, 1, 48_000, 48_001]
+	} else {
+		vec![0, 1, 47_999, 48_000, 48_001, 96_000, 200_000]
+	};
+	for (ai, sz) in att_sizes.iter().enumerate() {
+		let sz = *sz;
+		let vi = if scale == 0 { 3 } else { ai % 4 };
+		let st = mk_stream(
+			fx,
+			&format!("att{}", sz),
+			vi,
+			vec![g.plain("Ping"), Item::Archive(sz, 100 + ai as u64), g.plain("Pong")],
+		);
+		g.push(&st, "unsplit", vec![], vec![], 0, false, None);
+		g.random_splits(&mut p, &st, "random", if scale >= 2 { 8 } else { 3 }, false);
+		let a0 = 27 + HDR_LEN + 48; // first attachment byte
+		let mut extra = vec![];
+		let mut k = 0;
+		while k * ATT_CHUNK <= sz {
+			for d in [-1isize, 0, 1] {
+				let c = (a0 + k * ATT_CHUNK) as isize + d;
+				if c > 0 {
+					extra.push(c as usize);
+				}
+			}
+			k += 1;
+		}
+		g.boundary_cuts(&st, "boundary", &extra, false);
+		g.chunked(&st, "chunked", 8000, 0, false);
+		g.chunked(&st, "chunked", 1460, 0, false);
+		if scale >= 1 {
+			g.push(&st, "unsplit", vec![], vec![], 0, true, None);
+			g.chunked(&st, "chunked", 8000, 50, true);
+			g.random_splits(&mut p, &st, "random", 2, true);
+		}
+		let st2 = mk_stream(
+			fx,
+			&format!("att{}+1", sz),
+			(vi + 1) % 4,
+			vec![Item::Archive(sz, 200 + ai as u64), Item::Archive(1, 300 + ai as u64), g.plain("Ping")],
+		);
+		g.push(&st2, "unsplit", vec![], vec![], 0, false, None);
+		g.random_splits(&mut p, &st2, "random", 2, false);
+	}
+
+	// ---- unknown type bytes
+	let mbs = max_block_size() as usize;
+	let utypes: Vec<u8> = if scale == 0 { vec![29, 255] } else { vec![29, 30, 64, 100, 200, 254, 255] };
+	for (ui, t) in utypes.iter().enumerate() {
+		for (li, l) in [0usize, 1, 100, mbs, 4 * mbs].iter().enumerate() {
+			let vi = (ui + li) % 4;
+			let st = mk_stream(
+				fx,
+				&format!("unk{}-{}", t, l),
+				vi,
+				vec![g.plain("Ping"), Item::Unknown(*t, *l), g.plain("GetHeaders1"), g.plain("Pong")],
+			);
+			g.push(&st, "unsplit", vec![], vec![], 0, false, None);
+			g.boundary_cuts(&st, "boundary", &[27 + HDR_LEN + l / 2], false);
+			g.random_splits(&mut p, &st, "random", 2, false);
+			if scale >= 1 && li % 2 == 0 {
+				g.push(&st, "unsplit", vec![], vec![], 0, true, None);
+				g.random_splits(&mut p, &st, "random", 1, true);
+			}
+		}
+	}
+
+	// ---- conn::listen path on the short sequences
+	if scale >= 1 {
+		for st in &short_streams {
+			g.push(st, "unsplit", vec![], vec![], 0, true, None);
+			g.random_splits(&mut p, st, "random", 2, true);
+			if st.bytes.len() <= 1500 {
+				g.dribble(st, true);
+			}
+		}
+	}
+
+	// ---- random sequences of 1-12 messages, random multi-splits with delays
+	let n_rand = match scale {
+		0 => 60,
+		1 => 1500,
+		_ => 15000,
+	};
+	let n_entries = fx.entries.len();
+	for r in 0..n_rand {
+		let n_items = 1 + p.usize_below(12);
+		let mut items = vec![];
+		let mut weight = 0usize;
+		for _ in 0..n_items {
+			let it = match p.below(20) {
+				0 | 1 => {
+					let kmax = if p.chance(1, 8) { 70 } else { 6 };
+					let k = 1 + p.usize_below(kmax);
+					let off = p.usize_below(pool_n - k + 1);
+					Item::Headers((off..off + k).collect())
+				}
+				2 => Item::Unknown(*p.pick(&[29u8, 31, 99, 128, 255]), *p.pick(&[0usize, 1, 17, 500])),
+				3 => Item::Archive(*p.pick(&[0usize, 1, 10, 5000, 48_001]), p.next_u64()),
+				_ => {
+					let mut e = p.usize_below(n_entries);
+					if fx.entries[e].name == "HeadersCheck" {
+						e = 0;
+					}
+					Item::Plain(e)
+				}
+			};
+			weight += match &it {
+				Item::Headers(h) => h.len() * 260,
+				Item::Archive(l, _) => *l,
+				_ => 500,
+			};
+			items.push(it);
+			if weight > 150_000 {
+				break;
+			}
+		}
+		let vi = p.usize_below(4);
+		let st = mk_stream(fx, &format!("rnd{}", r), vi, items);
+		let listen = scale >= 1 && r % 10 == 9;
+		let class = "random_seq";
+		let k = 1 + p.usize_below(12);
+		let cuts = rand_cuts(&mut p, st.bytes.len(), k);
+		let delays = rand_delays(&mut p, cuts.len());
+		g.push(&st, class, cuts, delays, 100, listen, None);
+	}
+	(g.jobs, g.groups)
+}
+
+// ---------------------------------------------------------------- limits (worker subprocess)
+
+const MARK_LEN: usize = 32;
+
+fn mark(id: u64) -> Vec<u8> {
+	Prng::new(id ^ 0x4D41_524B).bytes(MARK_LEN)
+}
+
+fn ping_frame() -> Vec<u8> {
+	let mut b = 0x1122_3344_5566_7788u64.to_be_bytes().to_vec();
+	b.extend_from_slice(&0x0102_0304_0506_0708u64.to_be_bytes());
+	frame(3, &b)
+}
+
+fn is_sentinel_ping(m: &Message) -> bool {
+	match m {
+		Message::Ping(p) => p.total_difficulty.to_num() == 0x1122_3344_5566_7788 && p.height == 0x0102_0304_0506_0708,
+		_ => false,
+	}
+}
+
+#[derive(Clone)]
+struct LCase {
+	id: u64,
+	/// refuse_len | refuse_magic | accept_len | count_over | count_under
+	class: &'static str,
+	ty: u8,
+	boundary: String,
+	len: u64,
+	head: Vec<u8>,
+	/// bytes following the header for accept / count cases (the announced body)
+	body: Vec<u8>,
+	/// for Headers count cases: serialized headers present in the body, in order
+	present: Vec<Vec<u8>>,
+	vi: usize,
+}
+
+fn limit_cases(scale: u32, hdrs: &[Vec<u8>]) -> Vec<LCase> {
+	let mut v: Vec<LCase> = vec![];
+	let mut id = 1u64;
+	let mut types: Vec<u8> = (0u8..=28).collect();
+	types.extend_from_slice(&[29, 77, 255]);
+	if scale == 0 {
+		types = vec![0, 3, 6, 9, 11, 17, 28, 29, 255];
+	}
+	for t in &types {
+		let l = nominal_limit(*t);
+		let mut bounds: Vec<(String, u64)> = vec![
+			("0".into(), 0),
+			("limit".into(), l),
+			("limit+1".into(), l + 1),
+			("4xlimit".into(), 4 * l),
+			("4xlimit+1".into(), 4 * l + 1),
+			("4xlimit+2".into(), 4 * l + 2),
+			("8xlimit".into(), 8 * l + 8),
+			("2^31".into(), 1 << 31),
+			("2^32".into(), 1 << 32),
+			("2^32+len".into(), (1u64 << 32) + l.min(16)),
+			("2^40".into(), 1 << 40),
+			("2^63".into(), 1 << 63),
+			("u64max".into(), u64::MAX),
+		];
+		if scale == 0 {
+			bounds.retain(|(n, _)| ["limit", "4xlimit", "4xlimit+1", "2^32", "u64max"].contains(&n.as_str()));
+		}
+		for (bn, len) in bounds {
+			let accept = len <= 4 * l;
+			v.push(LCase {
+				id,
+				class: if accept { "accept_len" } else { "refuse_len" },
+				ty: *t,
+				boundary: bn,
+				len,
+				head: frame_header(MAGIC, *t, len),
+				body: if accept { vec![0u8; len as usize] } else { vec![] },
+				present: vec![],
+				vi: (id % 4) as usize,
+			});
+			id += 1;
+		}
+	}
+	// wrong magic
+	let magics: [[u8; 2]; 7] = [[0, 0], [73, 44], [74, 43], [43, 73], [83, 59], [97, 61], [255, 255]];
+	for (mi, m) in magics.iter().enumerate() {
+		for (t, len) in [(3u8, 16u64), (9, 2 + 257), (11, 1 << 20), (200, 5), (17, 48), (6, u64::MAX)] {
+			if scale == 0 && (mi + t as usize) % 3 != 0 {
+				continue;
+			}
+			v.push(LCase {
+				id,
+				class: "refuse_magic",
+				ty: t,
+				boundary: format!("magic[{},{}]/len{}", m[0], m[1], len),
+				len,
+				head: frame_header(*m, t, len),
+				body: vec![],
+				present: vec![],
+				vi: (id % 4) as usize,
+			});
+			id += 1;
+		}
+	}
+	// item counts contradicting the (within-limit) length
+	let mut cc = |class: &'static str, ty: u8, desc: &str, body: Vec<u8>, present: Vec<Vec<u8>>| {
+		v.push(LCase {
+			id,
+			class,
+			ty,
+			boundary: desc.to_string(),
+			len: body.len() as u64,
+			head: frame_header(MAGIC, ty, body.len() as u64),
+			body,
+			present,
+			vi: (id % 4) as usize,
+		});
+		id += 1;
+	};
+	let hl = |count: u16, present: usize| -> (Vec<u8>, Vec<Vec<u8>>) {
+		let mut b = count.to_be_bytes().to_vec();
+		let mut pr = vec![];
+		for i in 0..present {
+			b.extend_from_slice(&hdrs[i % hdrs.len()]);
+			pr.push(hdrs[i % hdrs.len()].clone());
+		}
+		(b, pr)
+	};
+	for (count, present) in [(2u16, 1usize), (33, 32), (34, 33), (65, 64), (512, 3), (65535, 1), (65535, 40), (1, 0), (32, 31)] {
+		let (b, pr) = hl(count, present);
+		cc("count_over", 9, &format!("count={},present={}", count, present), b, pr);
+	}
+	for (count, present) in [(1u16, 2usize), (32, 33), (33, 34), (31, 32), (0, 1), (0, 33), (0, 70), (64, 65)] {
+		let (b, pr) = hl(count, present);
+		cc("count_under", 9, &format!("count={},present={}", count, present), b, pr);
+	}
+	cc("count_over", 9, "len=0(no count)", vec![], vec![]);
+	cc("count_over", 9, "len=1(half count)", vec![0], vec![]);
+	// PeerAddrs: u32 count + (0,ip4,port)*
+	let addr = |i: u8| -> Vec<u8> { vec![0, 10, 0, 0, i, 0x0d, 0x56] };
+	let pa = |count: u32, present: usize| -> Vec<u8> {
+		let mut b = count.to_be_bytes().to_vec();
+		for i in 0..present {
+			b.extend(addr((i % 250) as u8 + 1));
+		}
+		b
+	};
+	for (count, present) in [(2u32, 1usize), (256, 0), (256, 255), (257, 0), (1 << 16, 3), (u32::MAX, 0), (u32::MAX, 200), (1, 0)] {
+		cc("count_over", 6, &format!("count={},present={}", count, present), pa(count, present), vec![]);
+	}
+	for (count, present) in [(1u32, 2usize), (0, 1), (255, 256), (10, 200)] {
+		cc("count_under", 6, &format!("count={},present={}", count, present), pa(count, present), vec![]);
+	}
+	// Locator: u8 count + hashes
+	let loc = |count: u8, present: usize| -> Vec<u8> {
+		let mut b = vec![count];
+		b.extend(Prng::new(count as u64 * 31 + present as u64).bytes(32 * present));
+		b
+	};
+	for (count, present) in [(21u8, 21usize), (21, 0), (255, 20), (255, 80), (20, 19), (2, 1), (1, 0)] {
+		cc("count_over", 7, &format!("count={},present={}", count, present), loc(count, present), vec![]);
+	}
+	for (count, present) in [(1u8, 2usize), (0, 1), (19, 20), (5, 80)] {
+		cc("count_under", 7, &format!("count={},present={}", count, present), loc(count, present), vec![]);
+	}
+	// Transaction / StemTransaction / Block bodies: (inputs, outputs, kernels) counts with nothing behind
+	let txb = |i: u64, o: u64, k: u64, pad: usize| -> Vec<u8> {
+		let mut b = vec![0u8; 32]; // offset
+		b.extend_from_slice(&i.to_be_bytes());
+		b.extend_from_slice(&o.to_be_bytes());
+		b.extend_from_slice(&k.to_be_bytes());
+		b.extend(vec![0u8; pad]);
+		b
+	};
+	for t in [14u8, 15] {
+		for (i, o, k, pad) in [
+			(0u64, 11u64, 0u64, 0usize),
+			(200, 0, 1, 0),
+			(1, 1, 1, 40),
+			(0, 0, 80, 100),
+			(1 << 20, 1 << 20, 1 << 20, 0),
+			(1 << 40, 0, 0, 0),
+			(u64::MAX, u64::MAX, u64::MAX, 64),
+			(0, 1 << 62, 1, 0),
+		] {
+			cc("count_over", t, &format!("iok={}/{}/{},pad={}", i, o, k, pad), txb(i, o, k, pad), vec![]);
+		}
+	}
+	if !hdrs.is_empty() {
+		for (i, o, k, pad) in [(0u64, 11u64, 1u64, 0usize), (5, 5, 5, 100), (u64::MAX, 1, 1, 0), (1 << 20, 1 << 20, 0, 50)] {
+			// Block: header + counts
+			let mut b = hdrs[0].clone();
+			b.extend_from_slice(&i.to_be_bytes());
+			b.extend_from_slice(&o.to_be_bytes());
+			b.extend_from_slice(&k.to_be_bytes());
+			b.extend(vec![0u8; pad]);
+			cc("count_over", 11, &format!("iok={}/{}/{},pad={}", i, o, k, pad), b, vec![]);
+			// CompactBlock: header + nonce + (out_full, kern_full, kern_ids)
+			let mut b = hdrs[0].clone();
+			b.extend_from_slice(&7u64.to_be_bytes());
+			b.extend_from_slice(&i.min(1_000_000).to_be_bytes());
+			b.extend_from_slice(&o.min(1_000_000).to_be_bytes());
+			b.extend_from_slice(&k.max(1).to_be_bytes());
+			b.extend(vec![0u8; pad]);
+			cc("count_over", 13, &format!("okk={}/{}/{},pad={}", i.min(1_000_000), o.min(1_000_000), k.max(1), pad), b, vec![]);
+		}
+	}
+	// PIBD segments: block hash + identifier + n_hashes ...
+	for t in [24u8, 26, 28] {
+		for (n, pad) in [(1u64, 0usize), (1_000_000, 0), (1_000_000, 64), (1_000_001, 0), (1 << 40, 8), (u64::MAX, 0), (3, 16)] {
+			let mut b = vec![7u8; 32];
+			b.push(3);
+			b.extend_from_slice(&5u64.to_be_bytes());
+			b.extend_from_slice(&n.to_be_bytes());
+			for q in 0..(pad / 8) {
+				b.extend_from_slice(&(q as u64 + 1).to_be_bytes());
+			}
+			cc("count_over", t, &format!("n_hashes={},pad={}", n, pad), b, vec![]);
+		}
+	}
+	for (n, pad) in [(1u16, 0usize), (0, 10), (65535, 0), (2, 3)] {
+		let mut b = vec![7u8; 32];
+		b.push(2);
+		b.extend_from_slice(&0u64.to_be_bytes());
+		b.extend_from_slice(&n.to_be_bytes());
+		b.extend(vec![0u8; pad]);
+		cc("count_over", 22, &format!("n_blocks={},pad={}", n, pad), b, vec![]);
+	}
+	v
+}
+
+/// Observations of one limit case (made in the worker, judged there as well).
+fn run_limit_case(c: &LCase, listener: &TcpListener) -> Value {
+	let mut obs = json!({
+		"id": c.id, "class": c.class, "type": type_name(c.ty), "ty": c.ty, "boundary": c.boundary,
+		"len": c.len.to_string(), "version": VERSIONS[c.vi],
+	});
+	let (client, server) = match socket_pair(listener) {
+		Ok(p) => p,
+		Err(e) => {
+			obs["inconclusive"] = json!(e);
+			return obs;
+		}
+	};
+	let refuse = c.class.starts_with("refuse");
+	let mk = mark(c.id);
+	let mut out = c.head.clone();
+	if refuse {
+		out.extend_from_slice(&mk);
+	} else {
+		out.extend_from_slice(&c.body);
+		out.extend_from_slice(&ping_frame());
+	}
+	let server_for_shutdown = server.try_clone().ok();
+	let (tx, rx) = mpsc::channel::<Value>();
+	let case = c.clone();
+	let sender = thread::spawn(move || {
+		let mut w = &client;
+		let _ = w.write_all(&out);
+		client
+	});
+	let reader = thread::spawn(move || {
+		let c = case;
+		let mut r = json!({});
+		let mut codec = Codec::new(pv(c.vi), server);
+		let t0 = Instant::now();
+		let mut consumed = 0u64;
+		let mut max_single = 0usize;
+		let mut peak = 0usize;
+		let mut reads = 0u64;
+		let mut batches_ok = 0u64;
+		let mut hdr_seen = 0usize;
+		let mut viol: Vec<(String, String)> = vec![];
+		let mut outcome;
+		let sig = |class: &str, ev: &str, c: &LCase| -> String {
+			if class == "count_under" {
+				// one defect class: the decoder result is accepted without checking that the body was used up
+				format!("oracle=count_vs_length;class=count_below_content;event={}", ev)
+			} else if class.starts_with("count") {
+				format!("oracle=count_vs_length;class=count_above_content;type={};event={}", type_name(c.ty), ev)
+			} else {
+				format!("oracle=limits;class={};type={};boundary={};event={}", class, type_name(c.ty), c.boundary.split('/').next().unwrap_or(""), ev)
+			}
+		};
+		loop {
+			reads += 1;
+			let (res, st) = track_alloc(c.id, || monitor::catch(|| codec.read()));
+			max_single = max_single.max(st.max_single);
+			peak = peak.max(st.peak_live);
+			let (res, n) = match res {
+				Ok(x) => x,
+				Err(pr) => {
+					viol.push((sig(c.class, &format!("panic@{}", pr.location), &c), pr.message));
+					outcome = "panic".into();
+					break;
+				}
+			};
+			consumed += n;
+			match res {
+				Err(e) => {
+					outcome = format!("err:{}", err_class(&e));
+					if is_timeout(&e) && reads == 1 && consumed == 0 {
+						outcome = "timeout_before_header".into();
+					}
+					break;
+				}
+				Ok(Message::Headers(hd)) if c.ty == 9 && hd.remaining != 0 => {
+					// a non-final batch of a streamed header list: allowed before the
+					// contradiction can be known, but it must be a prefix of what was sent
+					batches_ok += 1;
+					for h in &hd.headers {
+						let b = ser::ser_vec(h, pv(c.vi)).unwrap_or_default();
+						if hdr_seen >= c.present.len() || b != c.present[hdr_seen] {
+							viol.push((sig(c.class, "batch_not_a_prefix", &c), format!("header #{} delivered is not header #{} of the body", hdr_seen, hdr_seen)));
+						}
+						hdr_seen += 1;
+					}
+					if reads > 4000 {
+						outcome = "too_many_reads".into();
+						break;
+					}
+				}
+				Ok(m) => {
+					outcome = format!("ok:{}", m);
+					r["sentinel_is_msg"] = json!(is_sentinel_ping(&m));
+					break;
+				}
+			}
+		}
+		r["outcome"] = json!(outcome);
+		r["consumed"] = json!(consumed);
+		r["max_single"] = json!(max_single);
+		r["peak_live"] = json!(peak);
+		r["batches_before_error"] = json!(batches_ok);
+		r["elapsed_ms"] = json!(t0.elapsed().as_millis() as u64);
+		let is_err = outcome.starts_with("err:");
+		match c.class {
+			"refuse_len" | "refuse_magic" => {
+				if !is_err {
+					viol.push((sig(c.class, "not_refused", &c), format!("frame with announced length {} gave outcome {}", c.len, outcome)));
+				}
+				if consumed > HDR_LEN as u64 {
+					viol.push((sig(c.class, "consumed_more_than_header", &c), format!("codec reported {} bytes read before refusing", consumed)));
+				}
+				// the bytes after the header must still be in the socket
+				let mut s = codec.stream();
+				let _ = s.set_read_timeout(Some(Duration::from_millis(3000)));
+				let mut buf = vec![0u8; MARK_LEN];
+				let intact = s.read_exact(&mut buf).is_ok() && buf == mark(c.id);
+				r["mark_intact"] = json!(intact);
+				if !intact && is_err {
+					viol.push((sig(c.class, "bytes_after_header_consumed", &c), "the bytes following the refused header were no longer in the socket".into()));
+				}
+				let cap = c.len.min(1 << 20);
+				if (c.len >= 4096 && max_single as u64 >= cap) || max_single >= (1 << 20) {
+					viol.push((sig(c.class, "allocated_announced_size", &c), format!("single allocation request of {} bytes while refusing an announced length of {}", max_single, c.len)));
+				}
+			}
+			"accept_len" => {
+				// header within 4x nominal: must not be refused at the header
+				let hdr_refused = is_err && consumed <= HDR_LEN as u64 && c.len > 0 && outcome.contains("TooLargeReadErr");
+				if hdr_refused {
+					viol.push((sig(c.class, "refused_within_limit", &c), format!("length {} <= 4x nominal refused with {}", c.len, outcome)));
+				}
+				if c.ty != 9 && !outcome.starts_with("panic") && consumed != HDR_LEN as u64 + c.len && !hdr_refused {
+					viol.push((sig(c.class, "body_not_consumed", &c), format!("{} bytes consumed for a frame of 11+{} bytes (outcome {})", consumed, c.len, outcome)));
+				}
+				if outcome.starts_with("ok:") {
+					// the frame was accepted as a message: the stream must still be in sync
+					let (res, _) = codec.read();
+					let ok = matches!(&res, Ok(m) if is_sentinel_ping(m));
+					r["next_intact"] = json!(ok);
+					if !ok {
+						viol.push((sig(c.class, "desync_after_frame", &c), format!("message after the frame read as {:?}", res.map(|m| format!("{}", m)))));
+					}
+				} else if is_err && c.ty != 9 {
+					let (res, _) = codec.read();
+					r["next_intact_after_error"] = json!(matches!(&res, Ok(m) if is_sentinel_ping(m)));
+				}
+			}
+			_ => {
+				// count cases: the frame must end in an error, never in a (final) message
+				if outcome.starts_with("ok:") {
+					viol.push((sig(c.class, "message_yielded", &c), format!("{} frame with {} read as message '{}'", type_name(c.ty), c.boundary, &outcome[3..])));
+				}
+				if max_single as u64 > c.len + 65_536 {
+					viol.push((sig(c.class, "count_proportional_allocation", &c), format!("single allocation request of {} bytes for a body of {} bytes ({})", max_single, c.len, c.boundary)));
+				}
+			}
+		}
+		r["violations"] = json!(viol);
+		let _ = tx.send(r);
+	});
+	let got = rx.recv_timeout(Duration::from_secs(8));
+	let mut hang = false;
+	let r = match got {
+		Ok(r) => r,
+		Err(_) => {
+			hang = true;
+			if let Some(s) = &server_for_shutdown {
+				let _ = s.shutdown(Shutdown::Both);
+			}
+			rx.recv_timeout(Duration::from_secs(5)).unwrap_or(json!({"outcome": "hang_unrecoverable"}))
+		}
+	};
+	let _ = reader.join();
+	if let Ok(cl) = sender.join() {
+		let _ = cl.shutdown(Shutdown::Both);
+	}
+	for (k, v) in r.as_object().cloned().unwrap_or_default() {
+		obs[k] = v;
+	}
+	obs["hang"] = json!(hang);
+	if hang && refuse {
+		let mut vs = obs["violations"].as_array().cloned().unwrap_or_default();
+		vs.push(json!([
+			format!("oracle=limits;class={};type={};boundary={};event=blocked_reading_body", c.class, type_name(c.ty), c.boundary.split('/').next().unwrap_or("")),
+			"codec.read() did not return within 8 s for a header-only frame that must be refused".to_string()
+		]));
+		obs["violations"] = json!(vs);
+	}
+	obs
+}
+
+fn worker_limits(seed: u64, scale: u32) {
+	init_globals(false);
+	let hdr_pool = mine_pool(seed ^ 0x11, vec![10, 11, 10, 12, 10, 13, 10, 10]);
+	let hdrs: Vec<Vec<u8>> = hdr_pool
+		.iter()
+		.map(|h| ser::ser_vec(h, ProtocolVersion(1000)).unwrap())
+		.collect();
+	let cases = limit_cases(scale, &hdrs);
+	let next = AtomicUsize::new(0);
+	let outl = Mutex::new(std::io::stdout());
+	thread::scope(|s| {
+		for _ in 0..8 {
+			s.spawn(|| {
+				let listener = TcpListener::bind("127.0.0.1:0").expect("bind");
+				loop {
+					let i = next.fetch_add(1, Ordering::SeqCst);
+					if i >= cases.len() {
+						break;
+					}
+					let c = &cases[i];
+					{
+						let mut o = outl.lock().unwrap();
+						let _ = writeln!(o, "CASE {}", json!({"id": c.id, "class": c.class, "type": type_name(c.ty), "boundary": c.boundary, "len": c.len.to_string()}));
+						let _ = o.flush();
+					}
+					let obs = run_limit_case(c, &listener);
+					let mut o = outl.lock().unwrap();
+					let _ = writeln!(o, "RES {}", obs);
+					let _ = o.flush();
+				}
+			});
+		}
+	});
+	println!("WORKER-DONE {}", cases.len());
+}
+
+fn parent_limits(run: &Run, scale: u32) {
+	let exe = match std::env::current_exe() {
+		Ok(e) => e,
+		Err(e) => {
+			run.inconclusive(&format!("current_exe: {}", e));
+			return;
+		}
+	};
+	let out = std::process::Command::new(exe)
+		.arg("--worker-limits")
+		.arg("--seed")
+		.arg(format!("{}", run.seed))
+		.arg("--scale")
+		.arg(format!("{}", scale))
+		.output();
+	let out = match out {
+		Ok(o) => o,
+		Err(e) => {
+			run.inconclusive(&format!("limits worker spawn: {}", e));
+			return;
+		}
+	};
+	let stdout = String::from_utf8_lossy(&out.stdout).to_string();
+	let stderr = String::from_utf8_lossy(&out.stderr).to_string();
+	let mut started: BTreeMap<u64, Value> = BTreeMap::new();
+	let mut table: BTreeMap<String, BTreeMap<String, Value>> = BTreeMap::new();
+	let mut done = false;
+	let mut max_consumed_refused = 0u64;
+	let mut max_alloc_refused = 0u64;
+	let mut max_alloc_count = 0u64;
+	for line in stdout.lines() {
+		if let Some(j) = line.strip_prefix("CASE ") {
+			if let Ok(v) = serde_json::from_str::<Value>(j) {
+				started.insert(v["id"].as_u64().unwrap_or(0), v);
+			}
+		} else if let Some(j) = line.strip_prefix("RES ") {
+			let v: Value = match serde_json::from_str(j) {
+				Ok(v) => v,
+				Err(_) => continue,
+			};
+			started.remove(&v["id"].as_u64().unwrap_or(0));
+			let class = v["class"].as_str().unwrap_or("?").to_string();
+			let ty = v["type"].as_str().unwrap_or("?").to_string();
+			let bd = v["boundary"].as_str().unwrap_or("?").to_string();
+			let outcome = v["outcome"].as_str().unwrap_or("?").to_string();
+			run.eval(&format!("limits|{}|{}|{}", class, ty, bd), true);
+			if let Some(w) = v.get("inconclusive") {
+				run.inconclusive(&format!("limits case {} {} {}: {}", class, ty, bd, w));
+				continue;
+			}
+			run.count(&format!("limits.{}", class), 1);
+			let consumed = v["consumed"].as_u64().unwrap_or(0);
+			let ms = v["max_single"].as_u64().unwrap_or(0);
+			match class.as_str() {
+				"refuse_len" | "refuse_magic" => {
+					if outcome.starts_with("err:") && consumed <= HDR_LEN as u64 && v["mark_intact"].as_bool() == Some(true) {
+						run.count("frames_refused_before_body", 1);
+						if class == "refuse_len" {
+							run.count(&format!("frames_refused.{}", ty), 1);
+						}
+					}
+					max_consumed_refused = max_consumed_refused.max(consumed);
+					max_alloc_refused = max_alloc_refused.max(ms);
+					table.entry(ty.clone()).or_default().insert(
+						bd.clone(),
+						json!({"outcome": outcome, "consumed": consumed, "max_alloc": ms}),
+					);
+				}
+				"accept_len" => {
+					if consumed > HDR_LEN as u64 || v["len"].as_str() == Some("0") {
+						run.count("frames_within_limit_accepted", 1);
+					}
+					if v["next_intact"].as_bool() == Some(true) {
+						run.count("frames_within_limit_followed_by_intact_message", 1);
+					}
+					table.entry(ty.clone()).or_default().insert(
+						bd.clone(),
+						json!({"outcome": outcome, "consumed": consumed}),
+					);
+				}
+				_ => {
+					if outcome.starts_with("err:") {
+						run.count("count_contradictions_refused", 1);
+					}
+					run.count(&format!("count_cases.{}", ty), 1);
+					max_alloc_count = max_alloc_count.max(ms);
+				}
+			}
+			if let Some(vs) = v["violations"].as_array() {
+				for x in vs {
+					let s = x[0].as_str().unwrap_or("?");
+					let w = x[1].as_str().unwrap_or("");
+					run.violation(s, &format!("{} [{} {} {} len={}]", w, class, ty, bd, v["len"]), v.clone());
+				}
+			}
+		} else if line.starts_with("WORKER-DONE") {
+			done = true;
+		}
+	}
+	run.set_max("refusal_max_bytes_consumed", max_consumed_refused);
+	run.set_max("refusal_max_single_allocation", max_alloc_refused);
+	run.set_max("count_case_max_single_allocation", max_alloc_count);
+	run.extra("limits_table", json!(table));
+	let code = out.status.code();
+	if code == Some(monitor::EXIT_ALLOC_OVER_CAP) {
+		// the allocation monitor stopped the worker: a request above 1 GiB while handling a frame
+		let mut case_id = 0u64;
+		let mut size = String::new();
+		for l in stderr.lines() {
+			if let Some(rest) = l.strip_prefix("ALLOC-OVER-CAP case=") {
+				let mut it = rest.split(" size=");
+				case_id = it.next().and_then(|x| x.trim().parse().ok()).unwrap_or(0);
+				size = it.next().unwrap_or("").trim().to_string();
+			}
+		}
+		let c = started.get(&case_id).cloned().unwrap_or(json!({"id": case_id}));
+		run.violation(
+			&format!(
+				"oracle=limits;class={};type={};boundary={};event=alloc_over_cap",
+				c["class"].as_str().unwrap_or("?"),
+				c["type"].as_str().unwrap_or("?"),
+				c["boundary"].as_str().unwrap_or("?").split('/').next().unwrap_or("")
+			),
+			&format!("allocation request of {} bytes (> 1 GiB) while reading a frame header/body", size),
+			c,
+		);
+	} else if !done {
+		let tail: String = stderr.lines().rev().take(5).collect::<Vec<_>>().join(" | ");
+		run.inconclusive(&format!(
+			"limits worker ended abnormally (status {:?}); unfinished cases: {:?}; stderr tail: {}",
+			out.status,
+			started.values().take(3).collect::<Vec<_>>(),
+			tail
+		));
+	}
+}
+
+// ---------------------------------------------------------------- handshake
+
+fn addr_bytes(a: &SocketAddr) -> Vec<u8> {
+	match a {
+		SocketAddr::V4(x) => {
+			let mut b = vec![0u8];
+			b.extend_from_slice(&x.ip().octets());
+			b.extend_from_slice(&x.port().to_be_bytes());
+			b
+		}
+		SocketAddr::V6(x) => {
+			let mut b = vec![1u8];
+			for s in x.ip().segments() {
+				b.extend_from_slice(&s.to_be_bytes());
+			}
+			b.extend_from_slice(&x.port().to_be_bytes());
+			b
+		}
+	}
+}
+
+fn hand_body(version: u32, caps: u32, nonce: u64, td: u64, sender: &SocketAddr, receiver: &SocketAddr, ua: &str, genesis: &[u8]) -> Vec<u8> {
+	let mut b = version.to_be_bytes().to_vec();
+	b.extend_from_slice(&caps.to_be_bytes());
+	b.extend_from_slice(&nonce.to_be_bytes());
+	b.extend_from_slice(&td.to_be_bytes());
+	b.extend(addr_bytes(sender));
+	b.extend(addr_bytes(receiver));
+	b.extend_from_slice(&(ua.len() as u64).to_be_bytes());
+	b.extend_from_slice(ua.as_bytes());
+	b.extend_from_slice(genesis);
+	b
+}
+
+fn shake_body(version: u32, caps: u32, td: u64, ua: &str, genesis: &[u8]) -> Vec<u8> {
+	let mut b = version.to_be_bytes().to_vec();
+	b.extend_from_slice(&caps.to_be_bytes());
+	b.extend_from_slice(&td.to_be_bytes());
+	b.extend_from_slice(&(ua.len() as u64).to_be_bytes());
+	b.extend_from_slice(ua.as_bytes());
+	b.extend_from_slice(genesis);
+	b
+}
+
+struct Cur<'a>(&'a [u8], usize);
+impl<'a> Cur<'a> {
+	fn take(&mut self, n: usize) -> Option<&'a [u8]> {
+		if self.1 + n > self.0.len() {
+			return None;
+		}
+		let s = &self.0[self.1..self.1 + n];
+		self.1 += n;
+		Some(s)
+	}
+	fn u32(&mut self) -> Option<u32> {
+		self.take(4).map(|b| u32::from_be_bytes([b[0], b[1], b[2], b[3]]))
+	}
+	fn u64(&mut self) -> Option<u64> {
+		self.take(8).map(|b| {
+			let mut a = [0u8; 8];
+			a.copy_from_slice(b);
+			u64::from_be_bytes(a)
+		})
+	}
+	fn addr(&mut self) -> Option<Vec<u8>> {
+		let f = self.take(1)?[0];
+		let n = if f == 0 { 6 } else { 18 };
+		let mut v = vec![f];
+		v.extend_from_slice(self.take(n)?);
+		Some(v)
+	}
+}
+
+struct ParsedHand {
+	version: u32,
+	caps: u32,
+	nonce: u64,
+	td: u64,
+	sender: Vec<u8>,
+	receiver: Vec<u8>,
+	genesis: Vec<u8>,
+}
+
+fn parse_hand(b: &[u8]) -> Option<ParsedHand> {
+	let mut c = Cur(b, 0);
+	let version = c.u32()?;
+	let caps = c.u32()?;
+	let nonce = c.u64()?;
+	let td = c.u64()?;
+	let sender = c.addr()?;
+	let receiver = c.addr()?;
+	let ual = c.u64()? as usize;
+	c.take(ual)?;
+	let genesis = c.take(32)?.to_vec();
+	Some(ParsedHand {
+		version,
+		caps,
+		nonce,
+		td,
+		sender,
+		receiver,
+		genesis,
+	})
+}
+
+/// (version, caps, td, genesis)
+fn parse_shake(b: &[u8]) -> Option<(u32, u32, u64, Vec<u8>)> {
+	let mut c = Cur(b, 0);
+	let version = c.u32()?;
+	let caps = c.u32()?;
+	let td = c.u64()?;
+	let ual = c.u64()? as usize;
+	c.take(ual)?;
+	let genesis = c.take(32)?.to_vec();
+	Some((version, caps, td, genesis))
+}
+
+/// read one frame (type, body) from a raw socket; None on EOF / timeout / malformed
+fn read_frame(s: &mut TcpStream, timeout_ms: u64) -> Option<(u8, Vec<u8>)> {
+	let _ = s.set_read_timeout(Some(Duration::from_millis(timeout_ms)));
+	let mut h = [0u8; HDR_LEN];
+	s.read_exact(&mut h).ok()?;
+	if h[0..2] != MAGIC {
+		return None;
+	}
+	let mut l = [0u8; 8];
+	l.copy_from_slice(&h[3..11]);
+	let len = u64::from_be_bytes(l);
+	if len > 4096 {
+		return None;
+	}
+	let mut body = vec![0u8; len as usize];
+	s.read_exact(&mut body).ok()?;
+	Some((h[2], body))
+}
+
+fn write_dribbled(s: &TcpStream, bytes: &[u8], mode: u64) {
+	let mut w = s;
+	match mode % 3 {
+		0 => {
+			let _ = w.write_all(bytes);
+		}
+		1 => {
+			for b in bytes.chunks(1) {
+				let _ = w.write_all(b);
+			}
+		}
+		_ => {
+			let cut = (bytes.len() / 2).max(1).min(bytes.len());
+			let _ = w.write_all(&bytes[..cut]);
+			thread::sleep(Duration::from_millis(3));
+			let _ = w.write_all(&bytes[cut..]);
+		}
+	}
+}
+
+const LOCAL_VERSION: u32 = 1000;
+
+fn handshake_phase(run: &Run, seed: u64, scale: u32) {
+	let mut p = Prng::new(seed ^ 0x4853);
+	let listener = match TcpListener::bind("127.0.0.1:0") {
+		Ok(l) => l,
+		Err(e) => {
+			run.inconclusive(&format!("bind: {}", e));
+			return;
+		}
+	};
+	let laddr = listener.local_addr().unwrap();
+	let genesis = rnd_hash(&mut p);
+	let gbytes = genesis.to_vec();
+	let mut other = gbytes.clone();
+	other[31] ^= 1;
+	let self_addr: SocketAddr = "127.0.0.1:5000".parse().unwrap();
+	let caps = Capabilities::default();
+	let remote_versions: Vec<u32> = if scale == 0 {
+		vec![1, 1000, 2000, u32::MAX]
+	} else {
+		vec![0, 1, 2, 3, 999, 1000, 1001, 2000, u32::MAX]
+	};
+	let mut matrix: Vec<Value> = vec![];
+	let hviol = |clause: &str, what: String, replay: Value| {
+		run.violation(&format!("oracle=handshake;clause={}", clause), &what, replay);
+	};
+
+	// ---- initiate against a scripted peer
+	let mut captured_nonce: Option<(Arc<Handshake>, u64)> = None;
+	for (i, rv) in remote_versions.iter().enumerate() {
+		for wrong_genesis in [false, true] {
+			let hs = Arc::new(Handshake::new(genesis, P2PConfig::default()));
+			let hs2 = hs.clone();
+			let td_local = p.range(1, 1 << 50);
+			let td_remote = p.range(1, 1 << 50);
+			let t = thread::spawn(move || {
+				let mut c = TcpStream::connect(laddr).expect("connect");
+				let r = hs2.initiate(caps, Difficulty::from_num(td_local), PeerAddr(self_addr), &mut c);
+				(r, c)
+			});
+			let (mut srv, peer) = listener.accept().expect("accept");
+			let hand = read_frame(&mut srv, 5000);
+			let parsed = match &hand {
+				Some((1, b)) => parse_hand(b),
+				_ => None,
+			};
+			let replay = json!({"side": "initiate", "remote_version": rv, "wrong_genesis": wrong_genesis});
+			run.eval(&format!("handshake|initiate|rv{}|wg{}", rv, wrong_genesis), true);
+			match &parsed {
+				Some(h) => {
+					if h.version != LOCAL_VERSION || h.genesis != gbytes || h.sender != addr_bytes(&self_addr) || h.receiver != addr_bytes(&laddr) || h.caps != caps.bits() || h.td != td_local {
+						hviol("hand_fields", format!("Hand sent by initiate carries version={} caps={:#x} td={} sender={:?} receiver={:?}", h.version, h.caps, h.td, h.sender, h.receiver), replay.clone());
+					}
+					if !wrong_genesis && captured_nonce.is_none() {
+						captured_nonce = Some((hs.clone(), h.nonce));
+					}
+				}
+				None => {
+					run.inconclusive(&format!("no Hand frame from initiate (rv {})", rv));
+				}
+			}
+			let g = if wrong_genesis { &other } else { &gbytes };
+			let sb = frame(2, &shake_body(*rv, 0x2f, td_remote, "scripted/1.0", g));
+			write_dribbled(&srv, &sb, i as u64 + wrong_genesis as u64);
+			let (r, _c) = t.join().expect("initiate thread");
+			let _ = peer;
+			let want = (*rv).min(LOCAL_VERSION);
+			match r {
+				Ok(info) => {
+					matrix.push(json!({"side": "initiate", "remote": rv, "wrong_genesis": wrong_genesis, "result": format!("Ok(version={})", info.version.value())}));
+					if wrong_genesis {
+						hviol("genesis_initiate", "initiate accepted a Shake with a different genesis".into(), replay);
+					} else {
+						run.count("handshake_ok", 1);
+						if info.version.value() != want {
+							hviol("version_initiate", format!("local {} remote {} negotiated {} (expected {})", LOCAL_VERSION, rv, info.version.value(), want), replay.clone());
+						}
+						if info.capabilities.bits() != 0x2f || info.live_info.read().total_difficulty.to_num() != td_remote {
+							hviol("peer_info_initiate", "PeerInfo does not carry the capabilities / difficulty of the Shake".into(), replay);
+						}
+					}
+				}
+				Err(e) => {
+					matrix.push(json!({"side": "initiate", "remote": rv, "wrong_genesis": wrong_genesis, "result": format!("Err({})", err_class(&e))}));
+					if wrong_genesis {
+						if matches!(e, Error::GenesisMismatch { .. }) {
+							run.count("handshake_genesis_refused", 1);
+						} else {
+							run.count("handshake_refused_other_error", 1);
+						}
+					} else if parsed.is_some() {
+						hviol("initiate_failed", format!("initiate failed with {:?} against a well-formed Shake (remote version {})", e, rv), replay);
+					}
+				}
+			}
+		}
+	}
+
+	// ---- accept against a scripted peer
+	let accept_case = |hs: &Arc<Handshake>, hand: Vec<u8>, mode: u64| -> (Result<grin_p2p::PeerInfo, Error>, Option<(u8, Vec<u8>)>) {
+		let hs2 = hs.clone();
+		let client = TcpStream::connect(laddr).expect("connect");
+		let _ = client.set_nodelay(true);
+		let (mut srv, _) = listener.accept().expect("accept");
+		let t = thread::spawn(move || {
+			let r = hs2.accept(caps, Difficulty::from_num(4242), &mut srv);
+			let _ = srv.shutdown(Shutdown::Both);
+			r
+		});
+		write_dribbled(&client, &frame(1, &hand), mode);
+		let mut c = client;
+		let reply = read_frame(&mut c, 4000);
+		let r = t.join().expect("accept thread");
+		(r, reply)
+	};
+	let peer_claimed: SocketAddr = "10.9.8.7:13414".parse().unwrap();
+	for (i, rv) in remote_versions.iter().enumerate() {
+		for wrong_genesis in [false, true] {
+			let hs = Arc::new(Handshake::new(genesis, P2PConfig::default()));
+			let g = if wrong_genesis { &other } else { &gbytes };
+			let nonce = p.next_u64();
+			let td = p.range(1, 1 << 50);
+			let hand = hand_body(*rv, 0x0f, nonce, td, &peer_claimed, &laddr, "scripted/1.0", g);
+			let (r, reply) = accept_case(&hs, hand, i as u64 + 1 + wrong_genesis as u64);
+			let replay = json!({"side": "accept", "remote_version": rv, "wrong_genesis": wrong_genesis});
+			run.eval(&format!("handshake|accept|rv{}|wg{}", rv, wrong_genesis), true);
+			let want = (*rv).min(LOCAL_VERSION);
+			match r {
+				Ok(info) => {
+					matrix.push(json!({"side": "accept", "remote": rv, "wrong_genesis": wrong_genesis, "result": format!("Ok(version={})", info.version.value())}));
+					if wrong_genesis {
+						hviol("genesis_accept", "accept accepted a Hand with a different genesis".into(), replay);
+					} else {
+						run.count("handshake_ok", 1);
+						if info.version.value() != want {
+							hviol("version_accept", format!("local {} remote {} negotiated {} (expected {})", LOCAL_VERSION, rv, info.version.value(), want), replay.clone());
+						}
+						match reply.as_ref().and_then(|(t, b)| if *t == 2 { parse_shake(b) } else { None }) {
+							Some((v, c, tdl, gen)) => {
+								if v != LOCAL_VERSION || gen != gbytes || c != caps.bits() || tdl != 4242 {
+									hviol("shake_fields", format!("Shake reply carries version={} caps={:#x} td={}", v, c, tdl), replay);
+								}
+							}
+							None => hviol("shake_missing", "accept returned Ok but no well-formed Shake reached the peer".into(), replay),
+						}
+					}
+				}
+				Err(e) => {
+					matrix.push(json!({"side": "accept", "remote": rv, "wrong_genesis": wrong_genesis, "result": format!("Err({})", err_class(&e))}));
+					if wrong_genesis {
+						if matches!(e, Error::GenesisMismatch { .. }) {
+							run.count("handshake_genesis_refused", 1);
+						} else {
+							run.count("handshake_refused_other_error", 1);
+						}
+						if reply.is_some() {
+							hviol("genesis_accept_reply", "a reply frame was sent to a peer with a different genesis".into(), replay);
+						}
+					} else {
+						hviol("accept_failed", format!("accept failed with {:?} for a well-formed Hand (remote version {})", e, rv), replay);
+					}
+				}
+			}
+		}
+	}
+
+	// ---- own nonce replayed / self connection
+	if let Some((hs, nonce)) = captured_nonce {
+		for k in 0..(if scale == 0 { 1 } else { 3 }) {
+			let hand = hand_body(LOCAL_VERSION, 0x0f, nonce, 5, &peer_claimed, &laddr, "scripted/1.0", &gbytes);
+			let (r, reply) = accept_case(&hs, hand, k);
+			run.eval(&format!("handshake|replay_nonce|{}", k), true);
+			let replay = json!({"side": "accept", "case": "own nonce replayed"});
+			match r {
+				Err(Error::PeerWithSelf) => {
+					run.count("handshake_self_refused", 1);
+					matrix.push(json!({"side": "accept", "case": "own_nonce", "result": "Err(PeerWithSelf)"}));
+					if reply.is_some() {
+						hviol("self_reply", "a reply frame was sent on a self connection".into(), replay);
+					}
+				}
+				Err(e) => {
+					run.count("handshake_refused_other_error", 1);
+					matrix.push(json!({"side": "accept", "case": "own_nonce", "result": format!("Err({})", err_class(&e))}));
+				}
+				Ok(_) => {
+					matrix.push(json!({"side": "accept", "case": "own_nonce", "result": "Ok"}));
+					hviol("self_nonce", "accept accepted a Hand carrying a nonce this Handshake generated itself".into(), replay);
+				}
+			}
+			// control: a nonce never generated here is accepted by the same object
+			let hand = hand_body(LOCAL_VERSION, 0x0f, nonce ^ (1 << (k + 1)), 5, &peer_claimed, &laddr, "scripted/1.0", &gbytes);
+			let (r, _) = accept_case(&hs, hand, k + 1);
+			run.eval(&format!("handshake|foreign_nonce|{}", k), true);
+			match r {
+				Ok(_) => run.count("handshake_ok", 1),
+				Err(e) => hviol("foreign_nonce", format!("accept refused a foreign nonce with {:?}", e), json!({"case": "foreign nonce control"})),
+			}
+		}
+	} else {
+		run.inconclusive("no nonce captured from initiate");
+	}
+	for k in 0..(if scale == 0 { 1 } else { 4 }) {
+		// the same Handshake object on both ends of one socket
+		let hs = Arc::new(Handshake::new(genesis, P2PConfig::default()));
+		let hs_i = hs.clone();
+		let t = thread::spawn(move || {
+			let mut c = TcpStream::connect(laddr).expect("connect");
+			hs_i.initiate(caps, Difficulty::from_num(1), PeerAddr(self_addr), &mut c).map(|i| i.version.value())
+		});
+		let (mut srv, _) = listener.accept().expect("accept");
+		let ra = hs.accept(caps, Difficulty::from_num(1), &mut srv);
+		drop(srv);
+		let ri = t.join().expect("self initiate");
+		run.eval(&format!("handshake|self_loop|{}", k), true);
+		let replay = json!({"case": "initiate and accept of the same Handshake connected to each other"});
+		match &ra {
+			Err(Error::PeerWithSelf) => run.count("handshake_self_refused", 1),
+			Err(e) => {
+				run.count("handshake_refused_other_error", 1);
+				run.inconclusive(&format!("self loop accept: {:?}", e));
+			}
+			Ok(_) => hviol("self_loop_accept", "accept accepted a connection initiated by the same Handshake".into(), replay.clone()),
+		}
+		if ri.is_ok() {
+			hviol("self_loop_initiate", "initiate succeeded on a connection to itself".into(), replay);
+		}
+		matrix.push(json!({"case": "self_loop", "accept": format!("{:?}", ra.map(|i| i.version.value()).map_err(|e| err_class(&e))), "initiate": format!("{:?}", ri.map_err(|e| err_class(&e)))}));
+	}
+	// Hand header with wrong magic / over-limit length
+	for (k, (magic, len)) in [([0u8, 0u8], 100u64), (MAGIC, 513), (MAGIC, u64::MAX)].iter().enumerate() {
+		let hs = Arc::new(Handshake::new(genesis, P2PConfig::default()));
+		let hs2 = hs.clone();
+		let client = TcpStream::connect(laddr).expect("connect");
+		let (mut srv, _) = listener.accept().expect("accept");
+		let t = thread::spawn(move || hs2.accept(caps, Difficulty::from_num(1), &mut srv).map(|i| i.version.value()));
+		let mut w = &client;
+		let _ = w.write_all(&frame_header(*magic, 1, *len));
+		let t0 = Instant::now();
+		let mut r = None;
+		while t0.elapsed() < Duration::from_secs(6) {
+			if t.is_finished() {
+				r = Some(t.join().expect("join"));
+				break;
+			}
+			thread::sleep(Duration::from_millis(2));
+		}
+		run.eval(&format!("handshake|bad_hand_header|{}", k), true);
+		match r {
+			Some(Err(_)) => run.count("handshake_bad_header_refused", 1),
+			Some(Ok(_)) => hviol("bad_hand_header", format!("accept succeeded on a Hand header with magic {:?} len {}", magic, len), json!({"magic": magic, "len": len.to_string()})),
+			None => {
+				let _ = client.shutdown(Shutdown::Both);
+				hviol("bad_hand_header_blocked", format!("accept kept reading after a Hand header with magic {:?} len {} (header only sent)", magic, len), json!({"magic": magic, "len": len.to_string()}));
+			}
+		}
+	}
+	run.extra("handshake_matrix", json!(matrix));
+}
+
+// ---------------------------------------------------------------- main
+
+/// The real writer with an attachment file against the frame definition.
+fn writer_attachment_check(run: &Run, scratch: &Scratch, sizes: &[usize]) {
+	for (i, sz) in sizes.iter().enumerate() {
+		let seed = 900 + i as u64;
+		let path = scratch.sub(&format!("wr-att-{}.bin", i));
+		let att = archive_attachment(*sz, seed);
+		if std::fs::write(&path, &att).is_err() {
+			run.inconclusive("cannot write attachment scratch file");
+			continue;
+		}
+		let body = archive_body(*sz, seed);
+		let arch: Result<TxHashSetArchive, _> =
+			ser::deserialize(&mut &body[..], ProtocolVersion(1000), DeserializationMode::default());
+		let arch = match arch {
+			Ok(a) => a,
+			Err(e) => {
+				run.inconclusive(&format!("archive body: {:?}", e));
+				continue;
+			}
+		};
+		let v = ProtocolVersion(VERSIONS[i % 4]);
+		let mut m = match Msg::new(Type::TxHashSetArchive, &arch, v) {
+			Ok(m) => m,
+			Err(e) => {
+				run.inconclusive(&format!("Msg::new: {:?}", e));
+				continue;
+			}
+		};
+		match File::open(&path) {
+			Ok(f) => m.add_attachment(f),
+			Err(e) => {
+				run.inconclusive(&format!("open attachment: {}", e));
+				continue;
+			}
+		}
+		let mut w: Vec<u8> = vec![];
+		let r = write_message(&mut w, &m, Arc::new(Tracker::new()));
+		let mut want = frame(17, &body);
+		want.extend_from_slice(&att);
+		run.eval(&format!("writer|attachment|{}", sz), true);
+		if r.is_err() || w != want {
+			run.violation(
+				"oracle=writer;item=TxHashSetArchive+Attachment;event=frame_mismatch",
+				&format!("write_message output for an archive with a {}-byte attachment differs from header+body+attachment ({:?})", sz, r.err()),
+				json!({"attachment_len": sz}),
+			);
+		} else {
+			run.count("writer_frames_checked", 1);
+		}
+		let _ = std::fs::remove_file(&path);
+	}
+}
+
+fn arg_value(args: &[String], name: &str) -> Option<String> {
+	args.iter().position(|a| a == name).and_then(|i| args.get(i + 1).cloned())
+}
+
+fn main() {
+	let raw: Vec<String> = std::env::args().collect();
+	if raw.iter().any(|a| a == "--worker-limits") {
+		let seed = arg_value(&raw, "--seed").and_then(|s| s.parse().ok()).unwrap_or(1u64);
+		let scale = arg_value(&raw, "--scale").and_then(|s| s.parse().ok()).unwrap_or(1u32);
+		worker_limits(seed, scale);
+		return;
+	}
+	let run = Run::from_env("C19", "exploration");
+	init_globals(false);
+	let san = run.args.iter().any(|a| a == "--san") || std::env::var("VERIF_SAN").is_ok();
+	let scale: u32 = if san { 0 } else { run.tier.pick(1, 2) };
+	run.set_rule(
+		"Loopback TCP pairs; receiver = real Codec::read loop (or conn::listen + recording MessageHandler), sender = harness writing \
+		 frames (2 magic bytes, type byte, u64 BE length, body; cross-checked once per message against the real Msg::new/write_message) \
+		 in chosen fragments with TCP_NODELAY and 0-100 ms gaps. Streams: fixed short sequences covering every msg::Type the codec decodes \
+		 (Ping..KernelSegment, real mined headers/blocks, real txs, PIBD segments) at protocol versions 1/2/3/1000 with EVERY single split \
+		 point (class exhaustive1; a stream group is complete only if all its split jobs passed), all split pairs of a tiny stream \
+		 (exhaustive2), 1-byte dribble, header lists of 1/31/32/33/64/65/512 headers with mixed edge bits (cuts at every header boundary, \
+		 +-1, fixed chunks, random), TxHashSetArchive + attachment of 0/1/47999/48000/48001/96000/200000 bytes, unknown type bytes with \
+		 bodies up to 4x the default limit, random sequences of 1-12 items with random multi-splits and delays. Oracle per stream: \
+		 same sequence of (type, re-encoded body), header batches re-joined in order with consistent `remaining`, attachment bytes equal, \
+		 sum of Codec::read byte counts == stream length, no message after the end. Limits (worker subprocess, allocation monitor): per type x \
+		 {0, limit, limit+1, 4xlimit | 4xlimit+1, +2, 8x, 2^31, 2^32, 2^40, 2^63, u64::MAX}, wrong magics, contradictory item counts. \
+		 Handshake: real initiate/accept against a scripted peer over remote versions {0,1,2,3,999,1000,1001,2000,u32::MAX}, wrong genesis, \
+		 replayed own nonce, self loop. A case is distinct by (class, path, stream, version, cut set) / (limit class, type, boundary) / handshake cell.",
+	);
+	run.assume("the effective per-type limit is 4x the nominal max_msg_size (MsgHeaderWrapper::read); lengths <= 4x nominal must be accepted at the header, lengths above must be refused");
+	run.assume("fragment delays stay far below the codec I/O timeouts (2 s header / 60 s body), as the property's premise requires");
+	run.assume("a streamed header list with a contradictory count may deliver non-final batches (prefix of the body) before the frame is refused; it must never complete");
+	run.assume("local protocol version is fixed at 1000 (ProtocolVersion::local()); only the remote version varies in the handshake matrix");
+	if !monitor::alloc_monitor_installed() {
+		run.inconclusive("allocation monitor not installed");
+	}
+
+	let scratch = Scratch::new("c19");
+	let t0 = Instant::now();
+	let n_pool = match scale {
+		0 => 80,
+		_ => 560,
+	};
+	let fx = Arc::new(build_fx(run.seed, n_pool));
+	run.count("fixture_headers_mined", fx.hdr_bytes.len() as u64);
+	run.count("fixture_catalog_entries", fx.entries.len() as u64);
+	run.count("writer_frames_checked", (fx.entries.len() * 4) as u64);
+	for m in &fx.writer_mismatches {
+		run.violation(
+			&format!("oracle=writer;item={};event=frame_mismatch", m.split(' ').next().unwrap_or("?")),
+			&format!("Msg::new + write_message output differs from magic|type|len|body for {}", m),
+			json!({"entry": m}),
+		);
+	}
+	// every catalog body must decode on its own (fixture sanity, not an oracle)
+	eprintln!("[C19] fixtures built in {:.1}s", t0.elapsed().as_secs_f64());
+	writer_attachment_check(&run, &scratch, &[0, 1, 7999, 8000, 8001, 48_001]);
+
+	// phase: faithfulness
+	let (jobs, groups) = gen_jobs(&fx, run.seed, scale);
+	let budget = match scale {
+		0 => 120,
+		1 => 60,
+		_ => 540,
+	};
+	let deadline = Instant::now() + Duration::from_secs(budget);
+	run.count("stream_jobs_generated", jobs.len() as u64);
+	run_jobs(&run, &fx, &jobs, &groups, deadline, &scratch, 16);
+	let complete = groups.iter().filter(|g| g.left.load(Ordering::SeqCst) == 0).count();
+	run.count("exhaustive_stream_groups", groups.len() as u64);
+	run.count("exhaustive_stream_groups_complete", complete as u64);
+	run.extra(
+		"exhaustive_streams",
+		json!(groups
+			.iter()
+			.map(|g| json!({"stream": g.name, "split_jobs": g.total, "complete": g.left.load(Ordering::SeqCst) == 0}))
+			.collect::<Vec<_>>()),
+	);
+	run.set_exhaustive(false);
+	eprintln!("[C19] streams done at {:.1}s", t0.elapsed().as_secs_f64());
+
+	// samples
+	for j in jobs.iter().filter(|j| j.class == "exhaustive1").take(1) {
+		run.sample(job_replay(&fx, j));
+	}
+	for c in ["random_seq", "hdr_boundaries", "chunked", "dribble1"] {
+		if let Some(j) = jobs.iter().find(|j| j.class == c) {
+			run.sample(job_replay(&fx, j));
+		}
+	}
+
+	// phase: limits
+	parent_limits(&run, scale);
+	eprintln!("[C19] limits done at {:.1}s", t0.elapsed().as_secs_f64());
+
+	// phase: handshake
+	handshake_phase(&run, run.seed, scale);
+	eprintln!("[C19] handshake done at {:.1}s", t0.elapsed().as_secs_f64());
+
+	// minimum observations
+	let q = |a: u64, b: u64, c: u64| -> u64 {
+		match scale {
+			0 => a,
+			1 => b,
+			_ => c,
+		}
+	};
+	run.require("streams read back identically", run.counter("streams_ok"), q(300, 15_000, 40_000));
+	run.require("messages received", run.counter("messages_received"), q(1_000, 60_000, 200_000));
+	run.require("exhaustive single-split stream groups complete", complete as u64, q(0, 20, 40));
+	run.require("header batches received", run.counter("header_batches_received"), q(100, 1_000, 3_000));
+	run.require("attachment chunks received", run.counter("attachment_chunks_received"), q(20, 300, 800));
+	run.require("unknown-type frames skipped", run.counter("received.unknown"), q(20, 2_000, 5_000));
+	run.require("streams through conn::listen", run.counter("streams_ok.path_listen"), q(0, 100, 300));
+	run.require("frames refused before the body", run.counter("frames_refused_before_body"), q(30, 250, 250));
+	run.require("within-limit frames accepted", run.counter("frames_within_limit_accepted"), q(15, 100, 100));
+	run.require("contradictory counts refused", run.counter("count_contradictions_refused"), q(40, 40, 40));
+	run.require("successful handshakes", run.counter("handshake_ok"), q(6, 18, 18));
+	run.require("different genesis refused", run.counter("handshake_genesis_refused"), q(6, 18, 18));
+	run.require("self connection refused", run.counter("handshake_self_refused"), q(2, 6, 6));
+	drop(scratch);
+	run.finish();
 }
